@@ -125,7 +125,7 @@ def analyse(path):
         if e.kind == 'call' and e.name == 'malloc' and nf.get(e.res) is not True:
             bufs[e.res] = Buf(e, lin(e.args[0]))
             continue
-        if e.kind == 'call':
+        if e.kind == 'call' and not e.inlined:
             n = e.name
             if n in ('strcpy', 'strcat', 'strncpy', 'memcpy', 'llvm.memcpy.p0i8.p0i8.i64', 'memmove', 'llvm.memmove.p0i8.p0i8.i64', 'snprintf', 'sprintf'):
                 base, off = split_ptr(e.args[0])
@@ -199,7 +199,7 @@ def analyse(path):
                 b.curlen = off
             if not end.le(b.extent):
                 b.extent = end
-        elif e.kind == 'ret' and e.val in bufs:
+        elif e.kind == 'ret' and e.depth == min(x.depth for x in path.events) and e.val in bufs:
             b = bufs[e.val]
             if not b.terminated:
                 b.problems.append((e, 'is returned without a terminating NUL'))
